@@ -195,6 +195,35 @@ def rule_hosts(run, F, cfg):
         ok_h = bool(src) and all("arg:hostname" in x or "domain_to_ascii" in x for x in src)
         run.ob("C11.3.hosts-delegation", "hostname-provenance", ok_h,
                f"the host part derives from the `hostname` argument (lower-cased, www-stripped, punycoded): {src}", config=cfg)
+    # every piece of text spliced between "||" and '^' has passed the invalid-character test IN THE FORM IN WHICH IT IS
+    # SPLICED: the argument itself (lower-casing and the www. trim introduce no syntax characters), and the punycode
+    # conversion's output once more, because the conversion maps compatibility characters to ASCII (`＊` -> `*`)
+    if ps:
+        tested = [(b2, h.expr_operand(t2["args"][1])) for b2, t2 in h.calls(r"^regex::Regex::is_match$")
+                  if "INVALID_CHARS" in h.expr_operand(t2["args"][0])]
+        unt = []
+        for b2, t2 in h.calls(r"String::push_str$"):
+            v = h.expr_operand(t2["args"][1])
+            if v.startswith(('"', "'")):
+                continue
+            conds = dominating_conditions(h, b2)
+            okv = False
+            PRE = "regex::Regex::is_match(static:filters::network::NetworkFilter::parse_hosts_style::INVALID_CHARS, "
+            for key, val in conds.items():
+                if not key.startswith(PRE) or val != 0:
+                    continue
+                te = key[len(PRE):-1]
+                if "domain_to_ascii" in v:
+                    okv = okv or ("domain_to_ascii(" in te and te.endswith("@Continue.0"))   # the converted text itself was tested
+                else:
+                    okv = okv or te == h.local_name(1)        # the raw argument was tested
+            if not okv:
+                unt.append((v[:90], h.loc(b2)))
+        run.ob("C11.3.hosts-delegation", "spliced-text-free-of-rule-syntax", bool(tested) and not unt,
+               f"each host text pushed between \"||\" and '^' is covered by an INVALID_CHARS test of that same text ({len(tested)} tests); "
+               f"untested: {unt}", site=unt[0][1] if unt else h.loc(0), config=cfg,
+               detail="`0.0.0.0 ex＊ample.com` (full-width asterisk) passes the test of the raw text, is mapped to `ex*ample.com` by "
+                      "the punycode conversion and is then parsed as the wildcard rule `||ex*ample.com^`, which `||ex＊ample.com^` is not")
     pf = F.fn("lists::parse_filter")
     hs = pf.calls(r"NetworkFilter::parse_hosts_style$")
     ok_g = bool(hs) and all(has_cond(dominating_conditions(pf, b), r"loads_network_rules\(", 1) for b, t in hs)
